@@ -99,6 +99,7 @@ def run_case(case):
     threshold = case.get("paste_threshold")
     sigint_event = bool(case.get("sigint_event")) and setup == "pty"
     sim = Sim()
+    sim.overshoot = case.get("overshoot", 0.0)
     stream = PipeStream() if setup == "pipe" else PtyStream()
     model = Model(threshold, ci.READ_SIZE, sigint_event)
     Ev, sched_class = make_events()
@@ -453,7 +454,22 @@ def strategy():
         st.fixed_dictionaries({"op": st.just("request"), "timeout": st.sampled_from([0, 0.01, 0.5]), "during": st.just([]), "inject": st.none()}),
     )
 
+    # macro: an event is already scheduled, the request blocks on it, and an earlier one is scheduled "from another thread" meanwhile
+    sched_race = st.tuples(
+        st.sampled_from([0.1, 0.3, 0.3, 5.0]), st.sampled_from([0.5, None, None]), st.sampled_from([0.005, 0.05, 0.2]),
+        st.sampled_from([-1.0, 0.0, 0.02, 0.05]), st.integers(0, 1), st.integers(0, 1),
+    ).map(lambda t: [
+        {"op": "schedule", "i": t[4], "dt": t[0]},
+        {"op": "request", "timeout": t[1], "inject": None, "during": [{"act": "schedule", "i": t[5], "dt": t[3], "at": t[2]}]},
+        {"op": "request", "timeout": 0.5, "inject": None, "during": []},
+    ])
+    step = st.one_of(step, step, step, step, step, step, step, sched_race)
+
     def fix(case):
+        flat = []
+        for s_ in case["steps"]:
+            flat.extend(s_ if isinstance(s_, list) else [s_])
+        case["steps"] = flat
         if case["setup"] == "pty":  # 4 KiB pty buffer, single-threaded harness
             budget = 3000
             for s in case["steps"]:
@@ -474,6 +490,7 @@ def strategy():
             "setup": st.sampled_from(["pipe", "pipe", "pty"]),
             "paste_threshold": st.sampled_from([None, None, 0, 1, 8, 8, 100, 2000]),
             "sigint_event": st.booleans(),
+            "overshoot": st.sampled_from([0.0, 0.0005, 0.0005]),
             "steps": st.lists(step, min_size=1, max_size=15),
         }
     ).map(fix)
